@@ -175,28 +175,28 @@ type Chain struct {
 	Problems  []string // producer/zrnt disagreements (go to chaingen.md by hand)
 	Epochs    int
 
-	OpRate       OpRates
-	attGenUpTo   common.Slot
-	depositors   map[common.BLSPubkey]GenVal
-	slashedSet   map[common.ValidatorIndex]bool
-	exitSet      map[common.ValidatorIndex]bool
-	activated    map[common.ValidatorIndex]bool
-	aggDone      map[common.Root]bool
-	lastFin      common.Checkpoint
-	lastJust     common.Checkpoint
-	lastNextSync common.Root
-	leakForks    [5]bool
-	initialVals  int
-	divergences  []string
-	Absent       map[common.ValidatorIndex]bool
-	SlotSteps    []HonestSlots
+	OpRate          OpRates
+	attGenUpTo      common.Slot
+	depositors      map[common.BLSPubkey]GenVal
+	slashedSet      map[common.ValidatorIndex]bool
+	exitSet         map[common.ValidatorIndex]bool
+	activated       map[common.ValidatorIndex]bool
+	aggDone         map[common.Root]bool
+	lastFin         common.Checkpoint
+	lastJust        common.Checkpoint
+	lastNextSync    common.Root
+	leakForks       [5]bool
+	initialVals     int
+	divergences     []string
+	Absent          map[common.ValidatorIndex]bool
+	SlotSteps       []HonestSlots
 	Eth1HalfPattern bool
-	halfY        common.Eth1Data
-	halfPeriod   int
-	justified    map[common.Epoch]bool
-	modeOf       map[common.Epoch]string
-	SpareShare   int  // percent of the genesis validators that operations must leave healthy (default 40)
-	VoteAlways   bool // proposers always vote for the eth1 candidate
+	halfY           common.Eth1Data
+	halfPeriod      int
+	justified       map[common.Epoch]bool
+	modeOf          map[common.Epoch]string
+	SpareShare      int  // percent of the genesis validators that operations must leave healthy (default 40)
+	VoteAlways      bool // proposers always vote for the eth1 candidate
 }
 
 // HonestStep remembers one honest `trans` for the corruption and cancellation streams.
